@@ -32,6 +32,9 @@ def step (line : String) : String :=
   | "c12v" :: a => Drv.C12.opVerdict a
   | "c12c" :: a => Drv.C12.opCli a
   | "c05hy" :: a => Drv.C05.opHy a
+  | "c05hj" :: a => Drv.C05.opHyJoin a
+  | "c06dx" :: a => Drv.C06.opDx a
+  | "c06ddx" :: a => Drv.C06.opDdx a
   | "c05pd" :: a => Drv.C05.opPD a
   | "c06tz" :: a => Drv.C05.opTZ a
   | "c03s" :: a => Drv.C03.opS a
